@@ -110,3 +110,8 @@ CASES += [
     {"name": "points moved in place by the first point", "kind": "twin", "edits": [
         (_TM13, _SH13, "            self.data -= self.data[0]\n            self.start = 0.0\n", 1)]},
 ]
+
+CASES += [
+    {"name": "axis moved by rebinding the array of points", "kind": "twin", "edits": [
+        (_TM13, _SH13, "            self.data = self.data - self.start\n            self.start = 0.0\n", 1)]},
+]
